@@ -238,7 +238,8 @@ func c19File(c *Ctx, k c19Case) (nontrivial bool) {
 		if k.Format == "xml" {
 			e, err := mxj.NewMapXml(b)
 			if err != nil {
-				c.Broken("C19: encoding does not decode: %q", b)
+				// the encoder produced something its own decoder rejects: the file cannot be read back
+				c.Violate(api, "own-encoding-decodes", shape, cas, nil, fmt.Sprintf("the encoding of Map %d (prefix %q, indent %q) does not decode: %q (%v)", len(texts), k.Indent[0], k.Indent[1], b, err))
 				return
 			}
 			expected = append(expected, e)
@@ -451,7 +452,7 @@ func c19GobCopy(c *Ctx, ms []map[string]interface{}) {
 func c19Run(c *Ctx) {
 	mustBeDefault(c)
 	mxj.XMLEscapeChars(true)
-	c.S.Rule = "cases = (list of 1..3 Maps, writer, indent, reader, fault): XML Maps decoded from 6 documents (attributes, repeated siblings, mixed content, special characters), JSON Maps from 6 objects (strings with braces, quotes, backslashes incl. a trailing escaped backslash, nested lists/maps, non-null scalars), plus lists that hold large documents (0.6 to 9 KB) before and between small ones (intact and 4 truncation offsets); writers XmlFile, XmlFileIndent, JsonFile, JsonFileIndent (default and safe) with indents {2 spaces, tab}; readers NewMapsFromXmlFile[Raw], NewMapsFromJsonFile[Raw]; faults: none, EVERY truncation offset, EVERY single-byte corruption offset x {X, <, {, }, comma, quote, 0xFF}, missing file, directory. Oracle: intact => same count and order, each Map equal to the decode of its own encoding (JSON: the original), Raw contains the document text; truncation => error together with exactly the Maps wholly before the cut (clean end at a boundary); corruption => the Maps wholly before the fault are returned and equal, and for XML count/error agree with a reference sequential reader built on encoding/xml; unreadable file => error. Gob: all Maps encoded first, then all decoded (deep-equal up to nil-vs-empty); Copy: deep-equal, receiver unchanged, no shared container identity. non-trivial = faulted or intact read executed."
+	c.S.Rule = "cases = (list of 1..3 Maps, writer, indent, reader, fault): XML Maps decoded from 6 documents (attributes, repeated siblings, mixed content, special characters), JSON Maps from 6 objects (strings with braces, quotes, backslashes incl. a trailing escaped backslash, nested lists/maps, non-null scalars), plus lists that hold large documents (0.6 to 9 KB) before and between small ones (intact and 4 truncation offsets); writers XmlFile, XmlFileIndent, JsonFile, JsonFileIndent (default and safe) with (prefix, indent) pairs {(\"\", 2 spaces), (\"\", tab), (space, space), (tab, U+3000)}; readers NewMapsFromXmlFile[Raw], NewMapsFromJsonFile[Raw]; faults: none, EVERY truncation offset, EVERY single-byte corruption offset x {X, <, {, }, comma, quote, 0xFF}, missing file, directory. Oracle: intact => same count and order, each Map equal to the decode of its own encoding (JSON: the original), Raw contains the document text; truncation => error together with exactly the Maps wholly before the cut (clean end at a boundary); corruption => the Maps wholly before the fault are returned and equal, and for XML count/error agree with a reference sequential reader built on encoding/xml; unreadable file => error. Gob: all Maps encoded first, then all decoded (deep-equal up to nil-vs-empty); Copy: deep-equal, receiver unchanged, no shared container identity. non-trivial = faulted or intact read executed."
 	c.S.Assumptions = []string{"gob cannot distinguish nil from empty containers (encoding/gob)", "callers register map[string]interface{} and []interface{} with encoding/gob (its contract)", "the empty JSON object is skipped by the file readers by design and is not in the alphabet"}
 	xmlDocs := []string{`<a/>`, `<a x="1">t</a>`, `<r><b>&lt;1&gt; &amp; "q"</b><a/></r>`, `<r><a>1</a><b/><a>2</a></r>`, `<r y="2">m<c>v</c></r>`, `<doc><k n="1">é</k></doc>`}
 	jsonDocs := []string{`{"a":1}`, `{"a":"}{\""}`, `{"a":"x\\"}`, `{"a":{"b":[1,{"c":"]"}]},"d":true}`, `{"k":"<&>","l":["s",2.5,false]}`, `{"e":"\\\"{"}`, `{"p":"C:\\dir\\ "}`}
@@ -459,7 +460,7 @@ func c19Run(c *Ctx) {
 	if c.Thorough {
 		maxList = 3
 	}
-	indents := [][2]string{{}, {"", "  "}, {"", "\t"}}
+	indents := [][2]string{{}, {"", "  "}, {"", "\t"}, {" ", " "}, {"\t", "\u3000"}}
 	run := func(k c19Case) {
 		if !c.Mine() {
 			return
@@ -483,6 +484,9 @@ func c19Run(c *Ctx) {
 		seqs(docs, maxList, func(s []string) { lists = append(lists, append([]string(nil), s...)) })
 		for li, l := range lists {
 			for ii, in := range indents {
+				if format == "json" && strings.Trim(in[0]+in[1], " \t\n\r") != "" {
+					continue // JSON white space is space, tab, CR, LF only: another indent makes the file something else
+				}
 				for _, safe := range []bool{false, true} {
 					if safe && format == "xml" {
 						continue
